@@ -3,4 +3,4 @@ From Snoopy Require Import Lib.CStr Safety.Mem Safety.Consts Safety.Exec Expand.
 Extraction "model_safety.ml" Byte.to_N Byte.of_N Safety.Exec.x_append Safety.Exec.x_gen Safety.Exec.x_chain Safety.Exec.x_csv Safety.Exec.x_bytelen
   Safety.Exec.x_facility Safety.Exec.x_level Safety.Exec.x_sysval Safety.Exec.x_outsplit Safety.Exec.x_getbool Safety.Exec.x_ini
   Safety.Exec.x_cmdline Safety.Exec.x_envall Safety.Exec.x_hostname Safety.Exec.x_login Safety.Exec.x_datetime Safety.Exec.x_snprintf
-  Safety.Exec.x_cgroup Safety.Exec.x_rpname Safety.Exec.x_spawns Safety.Exec.x_errcycle Safety.Exec.x_sockaddr Safety.Exec.x_devlog Safety.Exec.x_fileline Safety.Exec.x_smallfile.
+  Safety.Exec.x_cfgload Safety.Exec.x_cgroup Safety.Exec.x_rpname Safety.Exec.x_spawns Safety.Exec.x_errcycle Safety.Exec.x_sockaddr Safety.Exec.x_devlog Safety.Exec.x_fileline Safety.Exec.x_smallfile.
